@@ -109,6 +109,17 @@ type ProtoMapHolder struct {
 	P map[string]int  `plenc:"4"`
 }
 
+// self-referential defined types without a struct in the cycle (finding F11)
+type PSelf *PSelf
+type SSelf []SSelf
+type MSelf map[string]MSelf
+type PSelfA *PSelfB
+type PSelfB []PSelfA
+type SSelfHolder struct {
+	A int   `plenc:"1"`
+	S SSelf `plenc:"2"`
+}
+
 var staticTypes = map[string]reflect.Type{}
 
 func regStatic(v interface{}) {
@@ -119,7 +130,7 @@ func regStatic(v interface{}) {
 func init() {
 	for _, v := range []interface{}{MyI16(0), MyI32(0), MyI64(0), MyU8(0), MyU32(0), MyUint(0), MyInt(0), MyInt8(0), MyU16(0), MyU64(0), MyStr(""), MyBool(false),
 		MyF64(0), MyF32(0), MyBytes(nil), MyTime{}, MyStrs(nil), MyInts(nil), MyMap(nil),
-		Rec{}, MutA{}, MutB{}, RecMap{}, Inner{}, Outer{}, Inner2{}, BadRec{}, GoodViaBad{}, BadHolder{}, BadRec2{}, ProtoMapHolder{}} {
+		Rec{}, MutA{}, MutB{}, RecMap{}, Inner{}, Outer{}, Inner2{}, BadRec{}, GoodViaBad{}, BadHolder{}, BadRec2{}, ProtoMapHolder{}, PSelf(nil), SSelf(nil), MSelf(nil), PSelfA(nil), PSelfB(nil), SSelfHolder{}} {
 		regStatic(v)
 	}
 }
